@@ -34,8 +34,8 @@ func c14Candidates(lvl int) []string {
 	)
 	if lvl > 0 {
 		g = gen.Alt(g,
-			gen.Seq(small, letter, sfx, sfx, rev),
-			gen.Seq(gen.Lit("1.0"), gen.Opt(gen.Lit("a")), sfxS, sfx, sfxS, gen.Opt(gen.Lit("-r1"))),
+			gen.Seq(gen.Lit("1.0", "1.1"), gen.Opt(gen.Lit("a")), sfx, sfxS, gen.Opt(gen.Lit("-r1"))),
+			gen.Seq(gen.Lit("1.0"), sfxS, sfx, sfxS),
 		)
 	}
 	return g
